@@ -1,6 +1,7 @@
 package main
 
 import (
+	"go/types"
 	"fmt"
 	"strings"
 
@@ -222,6 +223,50 @@ func checkC15(c *Ctx, w *World) {
 			taOK = true
 		}
 	})
+	// the key is private to the MultiEndpoint name: no other context key of the module has the same (named) type — two
+	// zero-valued package variables of one type are EQUAL keys
+	{
+		keyGlobals := map[*ssa.Global][]string{}
+		for _, fn := range p.Funcs {
+			eachInstr(fn, func(in ssa.Instruction) {
+				cc := callCommon(in)
+				if cc == nil {
+					return
+				}
+				var karg ssa.Value
+				if call, ok := staticCallNamed(valueOf(in), "context.WithValue"); ok {
+					karg = call.Call.Args[1]
+				} else if cc.IsInvoke() && cc.Method.Name() == "Value" && shortType(cc.Value.Type()) == "context.Context" && len(cc.Args) == 1 {
+					karg = cc.Args[0]
+				}
+				if karg == nil {
+					return
+				}
+				for _, o := range origins(karg) {
+					if u, isU := o.Val.(*ssa.UnOp); isU {
+						if gl, isG := u.X.(*ssa.Global); isG {
+							keyGlobals[gl] = append(keyGlobals[gl], fname(fn))
+						}
+					}
+				}
+			})
+		}
+		var mine *ssa.Global
+		for gl := range keyGlobals {
+			if gl.Name() == keyOf(g.fromCtx) {
+				mine = gl
+			}
+		}
+		clash := ""
+		if mine != nil {
+			for gl := range keyGlobals {
+				if gl != mine && types.Identical(gl.Type(), mine.Type()) {
+					clash = gl.Name()
+				}
+			}
+		}
+		c.check(mine != nil && clash == "", "C15.pick", "MultiEndpoint context key has a type of its own", p.pos(g.fromCtx.Pos()), "no other context key variable of the module has the key's type: a value stored by another interceptor cannot shadow the MultiEndpoint name", "the MultiEndpoint context key has the same type as context key "+clash+": both are zero-valued, hence EQUAL keys — a context that went through the other WithValue hides the MultiEndpoint name (the call is routed to the default MultiEndpoint)")
+	}
 	c.check(keyOf(g.fromCtx) != "" && keyOf(g.fromCtx) == keyOf(g.newCtx) && taOK, "C15.pick", "NewMEContext / FromMEContext", p.pos(g.fromCtx.Pos()), "same unexported key, comma-ok string assertion", "context helpers do not agree on the key or assert without comma-ok")
 
 	// ---- C15.dial
